@@ -1192,6 +1192,21 @@ type InputFile struct {
 	Reader io.Reader
 }
 
+// readErrorKeeper remembers the first read error other than io.EOF:
+// json.Decoder.More() answers false on a failed read and forgets why.
+type readErrorKeeper struct {
+	r   io.Reader
+	err error
+}
+
+func (k *readErrorKeeper) Read(p []byte) (int, error) {
+	n, err := k.r.Read(p)
+	if err != nil && err != io.EOF && k.err == nil {
+		k.err = err
+	}
+	return n, err
+}
+
 func EvalProgram(progSrc string, files []InputFile, rootSelectors []string, stdout io.Writer, fuzzing bool) (*Evaluator, error) {
 	lex := NewLexer(progSrc)
 	parser := NewParser(&lex)
@@ -1221,7 +1236,8 @@ func EvalProgram(progSrc string, files []InputFile, rootSelectors []string, stdo
 	// for each file, run the pattern rules
 	for _, file := range files {
 		// for each json value
-		d := json.NewDecoder(file.Reader)
+		reader := &readErrorKeeper{r: file.Reader}
+		d := json.NewDecoder(reader)
 		for d.More() {
 			var rootValue any
 			err := d.Decode(&rootValue)
@@ -1294,8 +1310,11 @@ func EvalProgram(progSrc string, files []InputFile, rootSelectors []string, stdo
 			}
 		}
 
-		// More() is also false for a stray ']' or '}' between values and when
-		// the reader fails: only a clean end of input ends the file silently
+		// More() is also false when the reader fails and for a stray ']' or '}'
+		// between values: only a clean end of input ends the file silently
+		if reader.err != nil {
+			return &ev, JsonError{reader.err.Error(), file.Name}
+		}
 		if _, err := d.Token(); err != nil && err != io.EOF {
 			return &ev, JsonError{err.Error(), file.Name}
 		}
